@@ -2665,6 +2665,75 @@ func c10r10(c *Ctx, r *Report) {
 	r.floor("... of a value that may come from a command's output", fromOutput, 1)
 }
 
+// c14r18: Terminal.constrain is what keeps the scroll offset inside the list. A handler may compute a raw
+// offset, call constrain and look at what came out — but if it then writes the RAW value back (the value it had
+// read before constrain corrected it), constrain has to run again before the handler ends: the next action of the
+// same list reads the offset as it stands (D63: offset-down at the top of the list restored -1; page-up, next in
+// the action list, called Merger.Get(-1) in multi-line mode: panic with the terminal in raw mode).
+func c14r18(c *Ctx, r *Report) {
+	l := c.L
+	r.rule("C14-R18", "A (a raw offset written back is constrained again before the handler returns)", "P1",
+		"in Terminal.Loop and its closures: where a value loaded from Terminal.offset after an arithmetic store into it (no constrain in between) is stored back into Terminal.offset after a call of constrain, every path from that store to a return passes another call of constrain",
+		"an offset outside the list (-1) survives the handler; the next action of the same list indexes the result list with it: panic, terminal left in raw mode")
+	loop := l.Fn("fzf", "(*Terminal).Loop")
+	cons := l.Fn("fzf", "(*Terminal).constrain")
+	fOff := l.Field("fzf", "Terminal", "offset")
+	if loop == nil || cons == nil || fOff == nil {
+		r.unest("anchors", token.NoPos, nil, "anchors Terminal.Loop / constrain / Terminal.offset", "cannot resolve")
+		return
+	}
+	isCons := func(in ssa.Instruction) bool { return staticCallee(in) == cons }
+	n, raw := 0, 0
+	for _, fn := range withClosures(loop) {
+		var stores []*ssa.Store
+		eachInstr(fn, func(in ssa.Instruction) {
+			if st, ok := in.(*ssa.Store); ok {
+				if fld, _ := fieldOf(st.Addr); fld == fOff {
+					stores = append(stores, st)
+				}
+			}
+		})
+		k := 0
+		for _, st := range stores {
+			n++
+			ld, ok := st.Val.(*ssa.UnOp)
+			if !ok || ld.Op != token.MUL {
+				continue
+			}
+			if fld, _ := fieldOf(ld.X); fld != fOff {
+				continue
+			}
+			// is the loaded value a raw one: an arithmetic store reaches the load with no constrain in between
+			isRaw := false
+			for _, s0 := range stores {
+				if _, isArith := s0.Val.(*ssa.BinOp); !isArith {
+					continue
+				}
+				if hit := pathAvoiding(s0, func(i ssa.Instruction) bool { return i == ssa.Instruction(ld) }, isCons, nil); hit != nil {
+					isRaw = true
+				}
+			}
+			// ... and constrain ran between the load and the store-back
+			between := false
+			if isRaw {
+				if hit := pathAvoiding(ld, func(i ssa.Instruction) bool { return i == ssa.Instruction(st) }, isCons, nil); hit == nil {
+					between = true
+				}
+			}
+			if !isRaw || !between {
+				continue
+			}
+			raw++
+			k++
+			hit := pathAvoiding(st, isReturn, isCons, nil)
+			r.check(hit == nil, fmt.Sprintf("%s:raw offset written back #%d is constrained again", relName(rootFn(fn)), k), st.Pos(), fn,
+				"constrain runs again before the handler returns", "the offset that constrain had corrected is put back and the handler returns without constraining it again")
+		}
+	}
+	r.floor("stores into Terminal.offset in Terminal.Loop", n, 3)
+	r.floor("... that write a raw offset back after constrain", raw, 1)
+}
+
 // round8 runs the round-8 rules of a property (own and shared) after the property's older rules.
 func round8(c *Ctx, r *Report, prop string) {
 	switch prop {
@@ -2731,6 +2800,7 @@ func round8(c *Ctx, r *Report, prop string) {
 		c05r16(c, r)
 	case "C14":
 		c14r17(c, r)
+		c14r18(c, r)
 		c13r11(c, r) // never stops responding: no lock-order cycle
 	}
 }
